@@ -175,6 +175,25 @@ def skeleton_part(run, tier):
         sents = shortest_sentences(P)
         sqls = [(' '.join(lexemes.get(t, t) for t in types), 'production %s' % str(p).split('  [')[0]) for p, types in sents]
         sqls += [(s, 'corpus') for s in corpus[d]]
+        # every production with each ONE of its nonterminal children replaced by each alternative shallow derivation (ACTTREE
+        # derivations, regenerated from the live grammar), placed in the shortest context of its left-hand side
+        from harness import c02u2
+        dv = c02u2.env(d)[0]
+        n_alt = 0
+        for i, p in enumerate(dv.prods):
+            na = dv.n_alternatives(p)
+            cand = [[0] * len(na)]
+            for j in range(len(na)):
+                for k in range(1, na[j]):
+                    pk = [0] * len(na)
+                    pk[j] = k
+                    cand.append(pk)
+            for picks in cand:
+                t_ = c02u2.sentence(d, i, picks, [7, 8], ['ida', 'idb', 'idc', 'idd'], ['str'], 0, 0)
+                if t_:
+                    sqls.append((t_, 'derivation of %s with alternatives %s' % (str(p).split('  [')[0], picks)))
+                    n_alt += 1
+        run.extra['alternative_derivation_sentences_%s' % d] = n_alt
         seen, n_ok, n_skip, n_bad, prods = set(), 0, 0, 0, set()
         for sql, origin in sqls:
             if sql in seen:
@@ -190,7 +209,11 @@ def skeleton_part(run, tier):
                 continue
             problem, s1, s2 = None, None, None
             try:
-                s1 = a.to_string()
+                try:
+                    s1 = a.to_string()
+                except Exception as e:  # noqa
+                    problem = 'print raises %s: %s' % (type(e).__name__, str(e)[:80])
+                    raise
                 b = parse_sql(s1, d)
                 s2 = b.to_string()
                 if b.to_tree() != a.to_tree():
@@ -200,11 +223,32 @@ def skeleton_part(run, tier):
                 elif a.copy().to_string() != s1 or a.copy().to_tree() != a.to_tree():
                     problem = 'copy() prints differently'
             except Exception as e:  # noqa
-                problem = 're-parse raises %s' % type(e).__name__
+                problem = problem or 're-parse raises %s' % type(e).__name__
             run.validated += 1
             if problem:
                 n_bad += 1
-                key = 'roundtrip:%s:%s' % (d, ' '.join(sql.split())[:120])
+                # finding key = the failing printer and its symptom where the symptom names one (so that every statement that hits
+                # the same printer defect is one finding), else the statement itself
+                if s1 is not None and 'Identifier:<' in s1:
+                    key = 'roundtrip:printer:%s:%s:identifier-valued-option-printed-with-repr' % (d, type(a).__name__)
+                elif 'Object of type Identifier is not JSON serializable' in problem:
+                    key = 'roundtrip:printer:%s:%s:identifier-valued-option-not-json-serializable' % (d, type(a).__name__)
+                elif s1 is not None and type(a).__name__ == 'CreateAgent' and 'model=None' in s1:
+                    key = 'roundtrip:printer:%s:CreateAgent:missing-model-printed-as-None' % d
+                elif s1 is not None and type(a).__name__ == 'Show' and re.fullmatch(r'SHOW ENGINE \S+ (MUTEX|STATUS)', ' '.join(sql.split())) \
+                        and not re.search(r'(MUTEX|STATUS)$', s1.strip()):
+                    key = 'roundtrip:printer:%s:Show:engine-status-or-mutex-word-dropped' % d
+                elif s1 is not None and type(a).__name__ == 'Show' and d == 'mindsdb' and re.fullmatch(r'SHOW ENGINE( \S+)?', ' '.join(sql.split())):
+                    key = 'roundtrip:printer:mindsdb:Show:engine-category'
+                elif s1 is not None and type(a).__name__ == 'Show' and d == 'mindsdb' and len(sql.split()) == 4 and len(s1.split()) == 3 \
+                        and problem == 'tree differs after re-parse':
+                    key = 'roundtrip:printer:mindsdb:Show:name-dropped-for-unlisted-category'
+                elif s1 is not None and type(a).__name__ == 'CreateTable' and re.search(r'\(\s*\)\s*$', s1) and 'PRIMARY_KEY' in sql:
+                    key = 'roundtrip:printer:%s:CreateTable:only-primary-key-prints-empty-column-list' % d
+                elif s1 is not None and type(a).__name__ == 'CreateDatabase' and re.match(r'CREATE (OR REPLACE )?PROJECT', sql.upper()) and re.match(r'CREATE (OR REPLACE )?DATABASE', s1.upper()):
+                    key = 'roundtrip:printer:mindsdb:CreateDatabase:project-printed-as-database'
+                else:
+                    key = 'roundtrip:%s:%s' % (d, ' '.join(sql.split())[:120])
                 run.counterexample(key, '%s: %r prints as %r: %s' % (d, ' '.join(sql.split())[:150], s1, problem),
                                    {'dialect': d, 'sql': sql, 'origin': origin, 'printed': s1, 'printed_again': s2, 'problem': problem}, True)
             else:
